@@ -201,7 +201,13 @@ def brokerVerdicts (pre : Server) (ws : List String) (core flags : String) : Lis
             else [fail "C07" sig s!"{typ} with packet id {id} got neither {name} nor a closed connection"]
           if typ == "PUBLISH" then
             let q := kvNatD kv "q" 0
-            let topic := (parseHex ((kvGet kv "t").getD "-")).getD []
+            let wireTopic := (parseHex ((kvGet kv "t").getD "-")).getD []
+            -- C24 (inbound): an empty topic stands for the topic the client last bound to the alias on this connection
+            let aliasN : Option Nat := if c.ver == 5 then kvNatO kv "ta" else none
+            let bound : Option Str := aliasN.bind fun a => assocGet c.aliasIn a
+            let unboundAlias := wireTopic.isEmpty && bound.isNone
+            let aliasOK := (aliasN.getD 0) ≤ pre.caps.topicAliasMaximum && aliasN != some 0
+            let topic := if wireTopic.isEmpty then bound.getD [] else wireTopic
             let payload := (parseHex ((kvGet kv "p").getD "-")).getD []
             let hook := assocGet pre.pubHook topic
             let pendingQ2 := match flGet c id with | some m => m.type == 5 | none => false
@@ -215,10 +221,14 @@ def brokerVerdicts (pre : Server) (ws : List String) (core flags : String) : Lis
                 (if pks.any (fun p => p.startsWith s!"PUBREC:id{id}:" && (match fieldOf p "rc" with | some rc => rc < "80" | none => false)) || closed then []
                  else [fail "C08" (if c.ver == 5 then "F08" else "-") "a retransmitted QoS 2 PUBLISH was not answered with a non-failure PUBREC"])
               else []
-            let valid := specTopicOK topic && !topic.isEmpty && !(kvGet kv "d" == some "1" && q == 0) && !(q == 0 && (kvGet kv "id").isSome && false)
+            let valid := specTopicOK topic && !topic.isEmpty && aliasOK && !(kvGet kv "d" == some "1" && q == 0) && !(q == 0 && (kvGet kv "id").isSome && false)
             let accepted := valid && aclOk pre c.id topic true && c.recvQuota > 0 && ackOK && !closed && !dupQ2 && !(q > 0 && pendingQ2)
             let effQ := min q pre.caps.maximumQos
-            let pv := if payload.isEmpty then [] else publishVerdicts pre io c.id topic payload effQ accepted hook
+            let routed := io.conns.any fun (_, ps) => ps.any fun p => p.startsWith "PUB:" && fieldOf p "p=" == some (hexOfStr payload)
+            let pv := if payload.isEmpty then []
+              else if unboundAlias || !aliasOK then
+                (if routed then [fail "C24" "-" "a PUBLISH with an empty topic and an alias the client never bound on this connection, or with an alias above the maximum, was routed"] else [])
+              else publishVerdicts pre io c.id topic payload effQ accepted hook
             c07 ++ c08 ++ pv
           else if typ == "SUBSCRIBE" then
             let nf := ((kvGet kv "f").getD "").splitOn "," |>.length
@@ -539,7 +549,7 @@ def c25Update (st : BkState) (pre post : Server) (ws : List String) (io : ImplOu
     | "bk.send" :: n :: "PUBLISH" :: kv =>
       match n.toNat?.bind (objOfConn pre), kvGet kv "p" with
       | some c, some p =>
-        if p.isEmpty || st.msgs25.any (·.1 == p) then st else
+        if p.isEmpty || p == "-" || st.msgs25.any (·.1 == p) then st else
         let me := if c.ver == 5 then kvNatD kv "me" 0 else 0
         let mx := pre.caps.maxMessageExpiry
         let eff := if me == 0 then mx else if mx == 0 then me else min me mx
@@ -619,6 +629,8 @@ def brokerOpV (st : BkState) (impl : String) (ws : List String) : Option (BkStat
       -- the real code panicked while serving this op (recovered by the harness when it ran in the harness's
       -- own goroutine; in a connection goroutine the process dies and bin/check reports the crash)
       some (st', m, fail "C28" "-" "the broker panicked while serving this op", g) else
+    -- the op addressed a connection that no longer exists: nothing was sent, nothing to judge or to book
+    if core.startsWith "no-conn" then some (st', m, "ok", g) else
     let (st'', c12) := c12Update st' st.srv st'.srv ws (parseImplOut core) flags
     let (st2b, c09) := c09Update st'' st.srv st'.srv ws (parseImplOut core)
     let (st3, c11) := c11Update st2b st.srv st'.srv ws (parseImplOut core)
